@@ -5,7 +5,7 @@ from .. import contracts
 from ..oracles import V
 from . import molcommon as MC
 
-SIZES = {'quick': 4000, 'thorough': 100000}
+SIZES = {'quick': 6000, 'thorough': 100000}
 
 
 def setup():
